@@ -61,5 +61,12 @@ def run(rep, tier, seed, replay):
             rise, fall, results = cases[i].split(" ")
             rep.violation({"kind": "history", "oracle": "the health flag may flip only after more than the configured number of consecutive contrary results; any opposite result restarts the count",
                            "case": {"rise": rise, "fall": fall, "results": results}, "impl": impl[i], "expected": model[i], "disagreeing_cases": len(mm)})
+    # the set as the TCP processor uses it (the list Healthy() hands out is shared: nobody may edit it): backends reached and
+    # round-robin fairness end to end, with backends refusing and accepting again
+    from props.c06 import tcp_end_to_end
+    v = tcp_end_to_end(rep, PROP, seed, tier)
+    if v and not found:
+        found = True
+        rep.violation(v)
     if not pr["ok"] and not found:
         rep.violation({"kind": "broken-tie", "theorem": pr.get("broken"), "detail": pr.get("tail"), "searched": "oracle holds on every observed snapshot"}, found_input=False)
